@@ -11,6 +11,8 @@ pub enum Kind {
     Direct,
     InStm,
     Free,
+    /// hybrid revisions only: a direct object listed only in the /XRefStm stream
+    HidDirect,
 }
 #[derive(Clone, Copy, Debug, PartialEq, Eq)]
 pub enum Form {
@@ -18,6 +20,11 @@ pub enum Form {
     /// xref stream; `flate`: /Filter /FlateDecode on the xref stream and the object stream;
     /// `w0zero`: write /W [0 4 2] when every entry of the section is of type 1
     Stream { flate: bool, w0zero: bool },
+    /// hybrid-reference update (ISO 32000-1 7.5.8.4): Direct/Free definitions go into a classic
+    /// section, InStm/HidDirect definitions ("hidden" objects) are listed only in a cross-reference
+    /// stream written before it; the classic trailer names that stream with /XRefStm.  The update
+    /// counts as two sections / two revisions of the history: the stream (older), the classic one.
+    Hybrid { flate: bool },
 }
 #[derive(Clone, Debug)]
 pub struct RevSpec {
@@ -56,6 +63,7 @@ pub struct Builder {
     next_aux: u32,
     size: u32,
     prev: Option<u64>,
+    xrefstm: Option<u64>,
 }
 
 pub fn deflate(data: &[u8]) -> Vec<u8> {
@@ -91,6 +99,7 @@ impl Builder {
             next_aux: aux_base,
             size: 0,
             prev: None,
+            xrefstm: None,
         }
     }
     pub fn next_aux_set(&mut self, n: u32) {
@@ -117,6 +126,9 @@ impl Builder {
 
     /// Append one revision.  `fixed`: extra direct objects with a literal body (catalog, pages).
     pub fn add_revision(&mut self, spec: &RevSpec, fixed: &[(u32, String)]) {
+        if let Form::Hybrid { flate } = spec.form {
+            return self.add_hybrid(spec, fixed, flate);
+        }
         let rev = self.hist.len();
         let mut entries: BTreeMap<u32, Entry> = BTreeMap::new();
         if rev == 0 {
@@ -145,6 +157,7 @@ impl Builder {
                     self.live_gen.insert(*n, 0);
                 }
                 Kind::InStm => {}
+                Kind::HidDirect => panic!("hidden objects need a hybrid revision"),
             }
         }
         // compressed definitions: one object stream for the revision
@@ -173,11 +186,110 @@ impl Builder {
         self.finish_revision(spec.form, entries);
     }
 
+    /// Append one hybrid-reference update (see [`Form::Hybrid`]).
+    fn add_hybrid(&mut self, spec: &RevSpec, fixed: &[(u32, String)], flate: bool) {
+        let rev = self.hist.len();
+        let mut visible: BTreeMap<u32, Entry> = BTreeMap::new();
+        let mut hidden: BTreeMap<u32, Entry> = BTreeMap::new();
+        if rev == 0 {
+            visible.insert(0, Entry::Free { next: 0, gen: 65535 });
+        }
+        for (n, body) in fixed {
+            let off = self.put_obj(*n, 0, body.as_bytes());
+            visible.insert(*n, Entry::InUse { off, gen: 0 });
+        }
+        for (n, k) in &spec.defs {
+            match k {
+                Kind::Direct | Kind::HidDirect => {
+                    let g = *self.cur_gen.get(n).unwrap_or(&0);
+                    let p = Self::payload(rev, *n);
+                    let off = self.put_obj(*n, g, p.to_string().as_bytes());
+                    self.store.push((off, Content::Int(p)));
+                    let e = Entry::InUse { off, gen: g };
+                    if *k == Kind::Direct {
+                        visible.insert(*n, e);
+                    } else {
+                        hidden.insert(*n, e);
+                    }
+                    self.live_gen.insert(*n, g);
+                }
+                Kind::Free => {
+                    let g = (*self.cur_gen.get(n).unwrap_or(&0) + 1).min(65535);
+                    self.cur_gen.insert(*n, g);
+                    visible.insert(*n, Entry::Free { next: 0, gen: g });
+                    self.live_gen.insert(*n, 0);
+                }
+                Kind::InStm => {}
+            }
+        }
+        let comp: Vec<u32> = spec.defs.iter().filter(|d| d.1 == Kind::InStm).map(|d| d.0).collect();
+        if !comp.is_empty() {
+            let c = self.next_aux;
+            self.next_aux += 1;
+            let mut head = String::new();
+            let mut bodies = String::new();
+            let mut objs = vec![];
+            for (i, n) in comp.iter().enumerate() {
+                let p = Self::payload(rev, *n);
+                head.push_str(&format!("{} {} ", n, bodies.len()));
+                bodies.push_str(&format!("{} ", p));
+                objs.push((*n, p));
+                hidden.insert(*n, Entry::Compressed { stm: c as u64, idx: i as u64 });
+                self.cur_gen.insert(*n, 0);
+                self.live_gen.insert(*n, 0);
+            }
+            let data = format!("{}{}", head, bodies);
+            let off = self.stream_obj(c, &format!("/Type /ObjStm /N {} /First {}", comp.len(), head.len()), data.as_bytes(), flate);
+            self.store.push((off, Content::Stm(objs)));
+            hidden.insert(c, Entry::InUse { off, gen: 0 });
+        }
+        // the cross-reference stream of the hidden objects: no /Prev, no startxref of its own
+        let x = self.next_aux;
+        self.next_aux += 1;
+        let xoff = self.buf.len() as u64;
+        hidden.insert(x, Entry::InUse { off: xoff, gen: 0 });
+        let ents: Vec<(u32, Entry)> = hidden.into_iter().collect();
+        let max = ents.iter().map(|e| e.0 + 1).max().unwrap_or(0);
+        self.size = self.size.max(max);
+        let subs = group(&ents);
+        let mut data = vec![];
+        let mut rows_all = vec![];
+        let mut index = String::new();
+        for (first, es) in &subs {
+            index.push_str(&format!("{} {} ", first, es.len()));
+            let mut rows = vec![];
+            for e in es {
+                let (t, f2, f3) = match e {
+                    Entry::Free { next, gen } => (0u8, *next, *gen),
+                    Entry::InUse { off, gen } => (1u8, *off, *gen),
+                    Entry::Compressed { stm, idx } => (2u8, *stm, *idx),
+                };
+                data.push(t);
+                data.extend_from_slice(&(f2 as u32).to_be_bytes());
+                data.extend_from_slice(&(f3 as u16).to_be_bytes());
+                rows.push((t, f2, f3));
+            }
+            rows_all.push((*first, rows));
+        }
+        let dict = format!("/Type /XRef /Size {} /W [1 4 2] /Index [{}] /Root 1 0 R", self.size, index.trim_end());
+        let off = self.stream_obj(x, &dict, &data, flate);
+        assert_eq!(off, xoff);
+        self.sections.push(SectionData::Stream(1, rows_all));
+        self.hist.push(ents);
+        // the classic section of the update
+        if visible.is_empty() {
+            visible.insert(0, Entry::Free { next: 0, gen: 65535 });
+        }
+        self.xrefstm = Some(xoff);
+        self.finish_revision(Form::Classic, visible);
+    }
+
     /// write the cross-reference section (classic or stream) for `entries` and close the revision
     pub fn finish_revision(&mut self, form: Form, mut entries: BTreeMap<u32, Entry>) {
         let rev = self.hist.len();
         let flate = matches!(form, Form::Stream { flate: true, .. });
         let prev = self.prev.map(|p| format!(" /Prev {}", p)).unwrap_or_default();
+        let form = if let Form::Hybrid { .. } = form { Form::Classic } else { form };
         match form {
             Form::Classic => {
                 let ents: Vec<(u32, Entry)> = entries.into_iter().collect();
@@ -196,13 +308,15 @@ impl Builder {
                         }
                     }
                 }
-                s.push_str(&format!("trailer\n<< /Size {} /Root 1 0 R{} >>\nstartxref\n{}\n%%EOF\n", self.size, prev, xoff));
+                let stm = self.xrefstm.take().map(|x| format!(" /XRefStm {}", x)).unwrap_or_default();
+                s.push_str(&format!("trailer\n<< /Size {} /Root 1 0 R{}{} >>\nstartxref\n{}\n%%EOF\n", self.size, prev, stm, xoff));
                 self.buf.extend_from_slice(s.as_bytes());
                 self.sections.push(SectionData::Classic(subs));
                 self.hist.push(ents);
                 self.prev = Some(xoff);
                 self.xref_offsets.push(xoff);
             }
+            Form::Hybrid { .. } => unreachable!(),
             Form::Stream { w0zero, .. } => {
                 let x = self.next_aux;
                 self.next_aux += 1;
